@@ -168,6 +168,8 @@ fn one_cycle(tx: &TxH, rx: &mut RxH, c: Cycle, id: &mut u64) {
 }
 
 const GROWTH_BOUND: i64 = 16 * 1024;
+/// retire lists hold at most a few dozen objects once every handle has announced the epoch
+const GROWTH_BLOCKS_CONCURRENT: i64 = 150;
 
 pub fn run_growth(seed: u64, runs: u64, budget_ms: u64, max_cycles: u64, shard: &mut Shard) {
     let t0 = Instant::now();
@@ -281,12 +283,24 @@ struct StressShared {
     sent: AtomicU64,
     recvd: AtomicU64,
     cycles: AtomicU64,
+    round: AtomicU64,
+    round_acks: AtomicU64,
 }
 
-fn hold_point(sh: &StressShared) {
+/// Plateau protocol: everybody pauses here; the supervisor then asks for a few "rounds" in which
+/// every thread performs exactly one operation (so every handle announces the current epoch and
+/// the churners drive the reclamation forward) before live memory is read. This makes the
+/// measurement independent of how long some thread happened to be descheduled.
+fn hold_point(sh: &StressShared, my_round: &mut u64, op: &mut dyn FnMut()) {
     if sh.hold.load(SeqCst) {
         sh.held.fetch_add(1, SeqCst);
         while sh.hold.load(SeqCst) && !sh.stop.load(SeqCst) {
+            let r = sh.round.load(SeqCst);
+            if r != *my_round {
+                *my_round = r;
+                op();
+                sh.round_acks.fetch_add(1, SeqCst);
+            }
             std::thread::yield_now();
         }
         sh.held.fetch_sub(1, SeqCst);
@@ -383,6 +397,7 @@ pub fn gen_stress(rng: &mut Rng, small: bool) -> StressCfg {
 /// returns (signature, deferred frees executed, frees while a writer was scanning)
 pub fn run_stress(cfg: &StressCfg, shard: &mut Shard) -> (u64, u64, bool) {
     payload::reset_ledger();
+    payload::set_pod_mode(cfg!(miri) && cfg.fl == Flavour::Mpmc);
     api::reset_ids();
     hist::clock_reset();
     hist::set_enabled(false);
@@ -398,6 +413,8 @@ pub fn run_stress(cfg: &StressCfg, shard: &mut Shard) -> (u64, u64, bool) {
         sent: AtomicU64::new(0),
         recvd: AtomicU64::new(0),
         cycles: AtomicU64::new(0),
+        round: AtomicU64::new(0),
+        round_acks: AtomicU64::new(0),
     });
     let mut joins = Vec::new();
     let mut tid = 1u32;
@@ -442,6 +459,7 @@ pub fn run_stress(cfg: &StressCfg, shard: &mut Shard) -> (u64, u64, bool) {
             }
             let mut id = (my as u64) << 40;
             let mut n = 0u64;
+            let mut my_round = 0u64;
             while !sh.stop.load(SeqCst) {
                 if let SendOut::Ok = tx.try_send(id) {
                     sh.sent.fetch_add(1, SeqCst);
@@ -449,7 +467,10 @@ pub fn run_stress(cfg: &StressCfg, shard: &mut Shard) -> (u64, u64, bool) {
                 id += 1;
                 n += 1;
                 if n % 16 == 0 {
-                    hold_point(&sh);
+                    hold_point(&sh, &mut my_round, &mut || {
+                        tx.try_send(id);
+                    });
+                    id += 1;
                     std::thread::yield_now();
                 }
             }
@@ -471,13 +492,16 @@ pub fn run_stress(cfg: &StressCfg, shard: &mut Shard) -> (u64, u64, bool) {
                 std::thread::yield_now();
             }
             let mut n = 0u64;
+            let mut my_round = 0u64;
             while !sh.stop.load(SeqCst) {
                 if let RecvOut::Val(_) = rx.recv_kind(RecvKind::TryRecv) {
                     sh.recvd.fetch_add(1, SeqCst);
                 }
                 n += 1;
                 if n % 16 == 0 {
-                    hold_point(&sh);
+                    hold_point(&sh, &mut my_round, &mut || {
+                        rx.recv_kind(RecvKind::TryRecv);
+                    });
                     std::thread::yield_now();
                 }
             }
@@ -502,6 +526,7 @@ pub fn run_stress(cfg: &StressCfg, shard: &mut Shard) -> (u64, u64, bool) {
                 std::thread::yield_now();
             }
             let mut id = (my as u64) << 40;
+            let mut my_round = 0u64;
             for n in 0..cycles {
                 if sh.stop.load(SeqCst) {
                     break;
@@ -521,13 +546,13 @@ pub fn run_stress(cfg: &StressCfg, shard: &mut Shard) -> (u64, u64, bool) {
                 one_cycle(&ctx, &mut crx, c, &mut id);
                 sh.cycles.fetch_add(1, SeqCst);
                 if n % 8 == 0 {
-                    hold_point(&sh);
+                    hold_point(&sh, &mut my_round, &mut || one_cycle(&ctx, &mut crx, Cycle::CloneTxDrop, &mut id));
                 }
             }
             // keep consuming so that the writers are not blocked by this stream handle
             while !sh.stop.load(SeqCst) {
                 crx.recv_kind(RecvKind::TryRecv);
-                hold_point(&sh);
+                hold_point(&sh, &mut my_round, &mut || one_cycle(&ctx, &mut crx, Cycle::CloneTxDrop, &mut id));
                 std::thread::yield_now();
             }
             ctx.drop_tx(false);
@@ -544,6 +569,7 @@ pub fn run_stress(cfg: &StressCfg, shard: &mut Shard) -> (u64, u64, bool) {
     let mut growth_samples: Vec<i64> = Vec::new();
     let mut next_sample = target / 4;
     let mut base_live: Option<i64> = None;
+    let mut base_bytes: i64 = 0;
     let mut id0 = 1u64;
     loop {
         let c = sh.cycles.load(SeqCst);
@@ -568,10 +594,40 @@ pub fn run_stress(cfg: &StressCfg, shard: &mut Shard) -> (u64, u64, bool) {
                 std::thread::yield_now();
             }
             if sh.held.load(SeqCst) == total_threads {
-                let (b, _) = calloc::live();
-                match base_live {
-                    None => base_live = Some(b),
-                    Some(b0) => growth_samples.push(b - b0),
+                // six rounds: every handle operates once per round, the churners retire and free
+                let mut ok = true;
+                for _ in 0..6 {
+                    let want = sh.round_acks.load(SeqCst) + total_threads as u64;
+                    sh.round.fetch_add(1, SeqCst);
+                    tx0.try_send(id0);
+                    id0 += 1;
+                    while let RecvOut::Val(_) = rx0.recv_kind(RecvKind::TryRecv) {}
+                    let tr = Instant::now();
+                    while sh.round_acks.load(SeqCst) < want {
+                        std::thread::yield_now();
+                        if tr.elapsed() > Duration::from_secs(5) {
+                            ok = false;
+                            break;
+                        }
+                    }
+                }
+                if ok {
+                    // Live *blocks*, not bytes: the retire lists are Vecs that keep the capacity of
+                    // their largest transient backlog (which depends on how long some thread was
+                    // descheduled, not on the number of cycles); a leaked token / position / stream
+                    // list is one more block each, a retained capacity is not.
+                    let (bytes, blocks) = calloc::live();
+                    match base_live {
+                        None => {
+                            base_live = Some(blocks);
+                            base_bytes = bytes;
+                        }
+                        Some(b0) => {
+                            growth_samples.push(blocks - b0);
+                            shard.stat_max("peak_growth_bytes_concurrent(info)", (bytes - base_bytes).max(0) as u64);
+                        }
+                    }
+                    shard.stat("plateau_measurements", 1);
                 }
             }
             sh.hold.store(false, SeqCst);
@@ -603,17 +659,17 @@ pub fn run_stress(cfg: &StressCfg, shard: &mut Shard) -> (u64, u64, bool) {
     shard.stat("stalls_fired", hooks::STALLS_FIRED.swap(0, SeqCst));
     if cfg.measure_growth {
         if let Some(mx) = growth_samples.iter().max() {
-            shard.stat_max("peak_growth_bytes_concurrent", (*mx).max(0) as u64);
-            if *mx > GROWTH_BOUND {
+            shard.stat_max("peak_growth_blocks_concurrent", (*mx).max(0) as u64);
+            if *mx > GROWTH_BLOCKS_CONCURRENT {
                 violation(
                     "C17",
                     "churn-growth",
                     "churn-growth:concurrent".to_string(),
                     format!(
-                        "with concurrent traffic the memory held by the queue grew by {} bytes between plateau measurements ({} cycles; bound {}): {}",
+                        "with concurrent traffic the number of live allocations grew by {} between plateau measurements taken after every handle had operated six more times ({} cycles; bound {} blocks): {}",
                         mx,
                         sh.cycles.load(SeqCst),
-                        GROWTH_BOUND,
+                        GROWTH_BLOCKS_CONCURRENT,
                         cfg.describe()
                     ),
                 );
@@ -642,7 +698,7 @@ pub fn run_stress(cfg: &StressCfg, shard: &mut Shard) -> (u64, u64, bool) {
     (sig.get(), deallocs, deallocs >= min_frees && !cfg.idle_handles || (cfg.idle_handles && sh.cycles.load(SeqCst) >= target))
 }
 
-pub fn run_stress_many(seed: u64, runs: u64, budget_ms: u64, small: bool, measure_growth: bool, shard: &mut Shard) {
+pub fn run_stress_many(seed: u64, runs: u64, budget_ms: u64, small: bool, measure_growth: bool, fl: Option<Flavour>, shard: &mut Shard) {
     let t0 = Instant::now();
     let mut rng = Rng::new(seed);
     let mut i = 0;
@@ -651,6 +707,9 @@ pub fn run_stress_many(seed: u64, runs: u64, budget_ms: u64, small: bool, measur
             break;
         }
         let mut cfg = gen_stress(&mut rng, small);
+        if let Some(f) = fl {
+            cfg.fl = f;
+        }
         cfg.measure_growth = measure_growth;
         if measure_growth {
             cfg.idle_handles = false;
